@@ -236,7 +236,7 @@ def run(ctx):
     evals = 0
     distinct = set()
     samples = []
-    tot = {k: 0 for k in ("gate", "match", "undet", "bd", "index_skipped", "cert_ok", "cert_stuck", "cert_glr", "cert_skipped", "refusals", "reused_inner", "reused_leaf", "reused_bytes", "lexed", "nodes", "clean")}
+    tot = {k: 0 for k in ("gate", "match", "undet", "ext", "bd", "index_skipped", "cert_ok", "cert_stuck", "cert_glr", "cert_skipped", "refusals", "reused_inner", "reused_leaf", "reused_bytes", "lexed", "nodes", "clean")}
     by_lang = {}
     kinds = {"chunked": 0, "ranges": 0, "exhaustive_single_char": 0, "multi_step": 0}
     corr_bad = judge_bad = 0
@@ -321,6 +321,7 @@ def run(ctx):
         "samples": samples, "totals": tot, "by_language": by_lang, "history_kinds": kinds,
         "correspondence": {"compared": tot["gate"], "equal": tot["match"], "undetermined_state_after_breakdown": tot["undet"],
                            "breakdown_lookahead_decisions_compared": tot["bd"],
+                           "external_scanner_state_comparisons_recomputed": tot["ext"],
                            "explained_only_by_difference_index_skipping": tot["index_skipped"],
                            "lr_machine_on_real_tables": {
                                "whole_error_free_documents": lr_doc,
